@@ -119,7 +119,19 @@ def run_gcd_one(ctx, prog, res, case, utz_class):
         utz = o.state.tags.get("utz")
         pre = o.state.tags.get("cut_pre")
         if utz is None or pre is None or not is_conc(utz):
-            res.d["inconclusive"].append("%s: loop cut not taken on the exit path" % name)
+            # a return that bypasses the loop (early exit): checked against the closed form of gcd(|c|, 10^e) =
+            # 2^min(v2(c), e) * 5^min(v5(c), e), written as a finite disjunction over the exponent pair (linear: mod by constants)
+            if o.kind != "return":
+                res.d["inconclusive"].append("%s: loop cut not taken on the exit path" % name)
+                continue
+            g = T.I(o.value.t)
+            n = z3.If(numer.t >= 0, numer.t, -numer.t)
+            alts = []
+            for a in range(e + 1):
+                for b in range(e + 1):
+                    alts.append(z3.And(g == (2 ** a) * (5 ** b), n % (2 ** a) == 0, n % (5 ** b) == 0,
+                                       True if a == e else n % (2 ** (a + 1)) != 0, True if b == e else n % (5 ** (b + 1)) != 0))
+            res.vc(ctx, name + "|closed-form", o.state.constraints(), z3.Or(*alts), {"c": numer.t}, info)
             continue
         inst = [gcd(pre["u"], z3.IntVal(0)) == pre["u"]]
         goal = T.I(o.value.t) == G0 * (1 << min(int(utz), e))
